@@ -11,6 +11,7 @@ class Spec:
     cuts = []
     outside = []
     assumptions = []
+    max_witness_replays = 6000
 
     def shards(self, tier):
         raise NotImplementedError
